@@ -13,6 +13,7 @@ use std::path::Path;
 
 const COMMIT_SIZE: usize = 10240;
 const OVERWRITE_TMP_PATH: &str = "to_revert_overwrite";
+const OVERWRITE_STAGING_PATH: &str = "overwrite_staging";
 
 /// Attempt to migrate a database to a new configuration with different column settings.
 /// `from` Source database path
@@ -48,6 +49,21 @@ pub fn migrate(from: &Path, mut to: Options, overwrite: bool, force_migrate: &[u
 	// Hashed keys and table entries are carried over as they are: the destination has to be in
 	// the format version of the source. Both directories are locked before anything is written.
 	let mut source = Db::open(&source_options)?;
+	// In place the path set in `to` is ignored: the columns are re-populated in a private, fresh
+	// directory of the source. A database that lives at the path left in `to` is not touched.
+	let staging_dir = from.join(OVERWRITE_STAGING_PATH);
+	let remove_staging_dir = || -> Result<()> {
+		if std::fs::metadata(&staging_dir).is_ok() {
+			std::fs::remove_dir_all(&staging_dir).map_err(|e| {
+				Error::Migration(format!("Error removing overwrite staging dir: {e:?}"))
+			})?;
+		}
+		Ok(())
+	};
+	if overwrite {
+		remove_staging_dir()?;
+		to.path = staging_dir.clone();
+	}
 	let mut dest = Db::open_or_create_in_version(&to, source_meta.version)?;
 
 	let mut ncommits: u64 = 0;
@@ -159,7 +175,11 @@ pub fn migrate(from: &Path, mut to: Options, overwrite: bool, force_migrate: &[u
 	}
 	dest.commit_raw(commit)?;
 	// The last batches are processed while the handle shuts down.
-	dest.close()
+	dest.close()?;
+	if overwrite {
+		remove_staging_dir()?;
+	}
+	Ok(())
 }
 
 /// Clear specified column. All data is removed and stats are reset.
